@@ -139,7 +139,7 @@ func scanOffsets(rng *vf.RNG, n int) []int {
 func (c *child) gridScan(rng *vf.RNG, cmd string, p []byte, label string) {
 	put := func(tag string, q []byte) { c.run(hcase{kind: 'P', tag: tag, cmd: cmd, data: q}) }
 	for _, o := range scanOffsets(rng, len(p)) {
-		if o%c.batch.Parts != c.batch.Part {
+		if o%c.batch.Parts != c.batch.Part || (o/c.batch.Parts)%c.scanStride != 0 {
 			continue
 		}
 		for _, v := range gridU8 {
@@ -295,6 +295,12 @@ func (c *child) payloadBatch(rng *vf.RNG) {
 			c.truncations(rng.Sub(2), sp.cmd, p, sd.label)
 		}
 		if sd.scan {
+			// quick tier: the second scanned value of the key-carrying types (≈0.1 ms per key
+			// and decode) gets every second position; the thorough tier scans all of them
+			c.scanStride = 1
+			if !vf.Thorough() && sd.label != "rich" && c.batch.Parts >= 6 {
+				c.scanStride = 2
+			}
 			c.gridScan(rng.Sub(3), sp.cmd, p, sd.label)
 		}
 		c.randomMutations(rng.Sub(uint64(4+sd.size)*64+uint64(c.batch.Part)), sp.cmd, p, sd.label, nMut/c.batch.Parts+1)
